@@ -239,6 +239,7 @@ def gen_cma(rng):
         md["args"] = args
         if rng.random() < 0.3:
             _basis_parts(rng, md, p=0.8)
+            md["mesh"] = []     # CMA kernel + meta_mesh crashes both real generators (see c21.py)
     elif kind == "apply":
         args = [_field(rng, to, _write_acc(rng, to)), _field(rng, frm, "read"),
                 {"k": "cma", "acc": "read", "to": to, "from": frm}]
